@@ -176,6 +176,53 @@ def sweep(prog, rep):
     rep.floor("sweep loop-body paths", n_paths, 5)
 
 
+def _block_of_stmt(fi, node):
+    """the statement list that directly contains `node`'s statement"""
+    from ..model import parent
+
+    st = node
+    while st is not None and not isinstance(st, ast.stmt):
+        st = parent(st)
+    p = parent(st)
+    for f in ("body", "orelse", "finalbody"):
+        b = getattr(p, f, None)
+        if isinstance(b, list) and any(x is st for x in b):
+            return b, st
+    return [], st
+
+
+def _copy_facts(fi, call_arg, at):
+    """what a value appended to the result is, looking at the straight-line statements before it in its block:
+    -> (source expression text it is a copy of / is, cleared: bool)"""
+    blk, st = _block_of_stmt(fi, at)
+    env = {}  # local -> (source text, is_copy, cleared)
+    for x in blk:
+        if x is st:
+            break
+        if isinstance(x, ast.Assign) and len(x.targets) == 1 and isinstance(x.targets[0], ast.Name):
+            v = x.value
+            if isinstance(v, ast.Call) and norm(v.func) in ("deepcopy", "copy.deepcopy") and len(v.args) == 1:
+                src = env.get(norm(v.args[0]), (norm(v.args[0]), False, False))
+                env[x.targets[0].id] = (src[0], True, False)
+            elif isinstance(v, ast.Name):
+                env[x.targets[0].id] = env.get(v.id, (v.id, False, False))
+            elif isinstance(v, ast.Call) and isinstance(v.func, ast.Attribute) and v.func.attr == "pop":
+                env[x.targets[0].id] = (norm(v), False, False)
+        elif isinstance(x, ast.Assign) and len(x.targets) == 1 and isinstance(x.targets[0], ast.Attribute) and x.targets[0].attr == "data" and isinstance(x.targets[0].value, ast.Name) and isinstance(x.value, ast.Dict) and not x.value.keys:
+            nm = x.targets[0].value.id
+            if nm in env:
+                env[nm] = (env[nm][0], env[nm][1], env[nm][1])  # clearing counts only on a copy
+                # aliases made afterwards inherit it; aliases made before do too (same object)
+    if isinstance(call_arg, ast.Name) and call_arg.id in env:
+        src, is_copy, cleared = env[call_arg.id]
+        # an alias taken before the clearing refers to the same (cleared) object
+        for k, v_ in env.items():
+            if v_[0] == src and v_[1] and v_[2]:
+                cleared = True
+        return src, is_copy, cleared
+    return norm(call_arg), False, False
+
+
 def union_rule(prog, rep):
     rep.rule("UNION", "period_union: the concatenation of both lists is sorted before the sweep; the merge test is `not gap` (touching slots merge; Timeslot.gap is None unless end < start, strict); on the merge branch the last output is replaced by the union period; every output has its data cleared")
     fi = prog.func("period_union")
@@ -210,12 +257,20 @@ def union_rule(prog, rep):
     if okt:
         merge_b, other_b = (ifs[0].body, ifs[0].orelse) if neg else (ifs[0].orelse, ifs[0].body)
         acc = None
+        app_call = None
         for s_ in other_b:
             if isinstance(s_, ast.Expr) and isinstance(s_.value, ast.Call) and isinstance(s_.value.func, ast.Attribute) and s_.value.func.attr == "append":
                 acc = norm(s_.value.func.value)
+                app_call = s_.value
         yes = [norm(x) for x in merge_b]
         no = [norm(x) for x in other_b]
         oky = acc is not None and no == [f"{acc}.append({ev})"]
+        if acc is not None and not oky and app_call is not None and len(app_call.args) == 1:
+            # the event may enter the result as a (data-less) copy of itself: locals and `.data = {}` only besides the append
+            src, is_copy, cleared = _copy_facts(fi, app_call.args[0], app_call)
+            rest = [x for x in other_b if not (isinstance(x, ast.Expr) and x.value is app_call)]
+            plain = all((isinstance(x, ast.Assign) and len(x.targets) == 1 and (isinstance(x.targets[0], ast.Name) or (isinstance(x.targets[0], ast.Attribute) and x.targets[0].attr == "data" and isinstance(x.targets[0].value, ast.Name) and x.targets[0].value.id != ev))) for x in rest)
+            oky = src == ev and plain
         repl = [x for x in merge_b if isinstance(x, ast.Assign) and norm(x.targets[0]) == f"{acc}[-1]"]
         others = [x for x in merge_b if x not in repl and not (isinstance(x, ast.Assign) and isinstance(x.targets[0], ast.Name))]
         if oky:
@@ -259,6 +314,13 @@ def union_rule(prog, rep):
                 else:
                     md = map_desc(fi, rv)
                     okc = md is not None and md[0] == [] and md[1] == acc and md[3] is None
+            elif not clear_loops and norm(rv) == acc:
+                # no clearing pass: then everything that enters the result must enter it as a data-less copy
+                apps = [c for c in walk_own(fi.node) if isinstance(c, ast.Call) and norm(c.func) == f"{acc}.append" and len(c.args) == 1]
+                okc = bool(apps)
+                for c in apps:
+                    src, is_copy, cleared = _copy_facts(fi, c.args[0], c)
+                    okc = okc and is_copy and cleared
         rep.check(okc, "UNION", fi.short, "outputs data-less", "every output's data is cleared; outputs returned", "outputs are not all cleared of data / not returned as swept", fi.loc())
     # third-party Timeslot.gap strictness (trusted base, looked at when the file is there)
     for cand in ("/venv/lib/python3.12/site-packages/timeslot/timeslot.py",):
